@@ -315,3 +315,59 @@ pub fn layout_json(l: &Layout) -> serde_json::Value {
 pub fn analyze(bytes: &[u8], cfg: &VmCfg, fast_tc: bool, wd: DynWatchdog) -> Result<Layout, sle::error::Errors> {
     sle::new(contract(bytes), cfg.to_config(), tc_config(fast_tc), wd).analyze()
 }
+
+// ------------------------------------------------------------------------------------------------
+// Direct VM runs
+// ------------------------------------------------------------------------------------------------
+
+pub struct VmRun {
+    pub states:      Vec<vm::state::VMState>,
+    pub errors:      Vec<(String, u32)>,
+    pub failed:      bool,
+    /// JUMPDEST offset -> number of times it was forked to
+    pub fork_counts: std::collections::BTreeMap<usize, usize>,
+    /// minimum gas per offset, from the instruction objects
+    pub gas:         Vec<u64>,
+    pub result:      sle::vm::ExecutionResult,
+}
+
+pub fn run_vm(code: &[u8], cfg: &VmCfg, wd: DynWatchdog) -> Result<VmRun, String> {
+    use sle::disassembly::InstructionStream;
+    let stream = InstructionStream::try_from(code).map_err(|e| format!("disassembly: {e:?}"))?;
+    let thread = stream.new_thread(0).map_err(|e| format!("{e:?}"))?;
+    let gas: Vec<u64> = (0..code.len())
+        .map(|i| thread.instruction(i as u32).map(|o| o.min_gas_cost() as u64).unwrap_or(0))
+        .collect();
+    let mut machine = vm::VM::new(stream, cfg.to_config(), wd).map_err(|e| format!("VM::new: {e:?}"))?;
+    let res = machine.execute();
+    let states = machine.stored_states().to_vec();
+    let mut fork_counts = std::collections::BTreeMap::new();
+    for (i, b) in code.iter().enumerate() {
+        if *b == 0x5b {
+            if let Ok(c) = machine.jump_targets().cond_jump_count(i as u32) {
+                if c > 0 {
+                    fork_counts.insert(i, c);
+                }
+            }
+        }
+    }
+    let (failed, errors) = match &res {
+        Ok(()) => (false, vec![]),
+        Err(e) => (
+            true,
+            e.payloads()
+                .iter()
+                .map(|l| (exec_error_kind(&l.payload), l.location))
+                .collect(),
+        ),
+    };
+    let result = machine.consume();
+    Ok(VmRun {
+        states,
+        errors,
+        failed,
+        fork_counts,
+        gas,
+        result,
+    })
+}
